@@ -574,6 +574,22 @@ pub fn pass_bottom_up(rec: &SessionRec, stats: &mut BuStats) -> Vec<Finding> {
       Ev::OCheck { owner, consistent, .. } => {
         if !*consistent { if !scheduled.contains(owner) { expect_schedule_task(evs, i, *owner, &mut out); } scheduled.insert(*owner); justified.insert(*owner); } else { stats.cutoffs += 1; }
       }
+      Ev::BuSchedule { res } => {
+        // C09: the build is told that `res` changed. Whether a task depending on it is affected is for that
+        // dependency's own checker to say: every completed task with a recorded read / write of `res` that is not
+        // already scheduled must have this dependency checked during the call.
+        let stop = (i + 1..end).find(|j| matches!(evs[*j], Ev::BuSchedule { .. } | Ev::BuUpdateCall | Ev::BuAbandon)).unwrap_or(end);
+        for (x, ts) in sh.tasks.iter().enumerate() {
+          let x = x as u32;
+          if ts.status != Status::Completed || scheduled.contains(&x) { continue; }
+          let (decls, _) = ts.collapsed();
+          if !decls.iter().any(|d| !d.is_task_target() && d.target == *res) { continue; }
+          let checked = evs[i + 1..stop].iter().any(|e| matches!(e, Ev::Check { owner, res: r, .. } if *owner == x && r == res));
+          if !checked {
+            out.push(f("C09", "dependent-of-reported-resource-not-checked", i, format!("the bottom-up build was told that R{} changed; T{} has a recorded dependency on it and was not scheduled yet, but its checker was not asked", res, x)));
+          }
+        }
+      }
       Ev::Trk(t) if t.m == TM::ScheduleTask => {
         // must be explained by the verdict just before it
         let ok = match prev_nt(evs, i).map(|j| &evs[j]) {
